@@ -60,13 +60,15 @@ def corpus_programs():
 
 def _build_one(ctx, job):
     """One vh-exec process per (package, profile): the trace file then belongs to exactly this build."""
-    jid = "%s_%s" % (job["id"], job["profile"])
+    jid = "%s_%s%s" % (job["id"], job["profile"], "_noasm" if job.get("noasm") else "")
     inp = os.path.join(ctx.work, "b-%s.in.ndjson" % jid)
     outp = os.path.join(ctx.work, "b-%s.out.ndjson" % jid)
     trace = os.path.join(ctx.work, "b-%s.trace.ndjson" % jid)
     rec = {"id": job["id"], "files": job["files"], "profile": job["profile"], "run": False}
     if job.get("manifest"):
         rec["manifest"] = job["manifest"]
+    if job.get("noasm"):
+        rec["env"] = {"SWAY_VERIF_ASM_OPTS": ""}      # hook H3: no asm-level optimizations -> MOVEs reach the allocator
     write_ndjson(inp, [rec])
     for p in (outp, trace):
         if os.path.exists(p):
@@ -213,7 +215,7 @@ def model_check(ctx):
     cov = {}
     main_cfgs = ["MC_RegAlloc_q"] if ctx.quick else ["MC_RegAlloc", "MC_RegAlloc_rand"]
     for cfg in main_cfgs:
-        mc = ctx.tlc("MC_RegAlloc", cfg, workers=4, coverage=True, timeout=3000,
+        mc = ctx.tlc("MC_RegAlloc", cfg, workers=3, coverage=True, timeout=3000,
                      tlc_seed=11 if cfg.endswith("rand") else None)
         if mc.violated:
             ctx.report("model:%s:%s" % (cfg, mc.violated), "MC_RegAlloc (%s): %s is violated: NoClobber does not imply "
@@ -221,7 +223,7 @@ def model_check(ctx):
                        {"tlc": mc.counterexample()[:6000]})
         for k, v in mc.coverage_actions().items():
             cov[k] = [cov.get(k, [0, 0])[0] + v[0], cov.get(k, [0, 0])[1] + v[1]]
-    live = ctx.tlc("MC_RegAlloc", "MC_RegAlloc_liveq" if ctx.quick else "MC_RegAlloc_live", workers=4, timeout=3000)
+    live = ctx.tlc("MC_RegAlloc", "MC_RegAlloc_liveq" if ctx.quick else "MC_RegAlloc_live", workers=2, timeout=3000)
     if live.violated:
         ctx.report("model:live:%s" % live.violated, "the least-fixpoint liveness of RegAlloc.tla differs from path liveness",
                    {"tlc": live.counterexample()[:6000]})
@@ -255,6 +257,7 @@ def corrupt_one(rec):
 
 
 def self_tests(ctx, recs):
+    """Corrupt recorded traces / weaken the spec and require Trace_RegAlloc to reject (exit 2 if it does not)."""
     res = {}
     cands = [r for r in sorted(recs, key=lambda r: (-r["nspill"], -r["nops"], r["h"])) if r["nops"] <= 2500]
     bad = None
@@ -264,51 +267,80 @@ def self_tests(ctx, recs):
             break
     if not bad:
         raise ToolError("self-test: no function with two registers used by one instruction")
-    _v, rej, _t = _validate_shard(ctx, 0, [bad], tag="selfcorrupt")
-    if not rej or rej[0][1] != "NoClobber":
-        raise ToolError("binding self-test failed: a corrupted assignment (two operands of one instruction in one "
-                        "register) was accepted by Trace_RegAlloc")
-    res["corrupted_assignment_rejected"] = describe(rej[0][0], rej[0][1], rej[0][2])
+    tests = [("corrupt", [bad], "Trace_RegAlloc", "NoClobber")]
     sp = [r for r in cands if r["nspill"] >= 2]
     if sp:
         r = sp[0]
         nb = json.loads(json.dumps(r["body"]))
         sl = nb["spills"][0]["slots"]
         sl[1][1] = sl[0][1]                       # two spilled registers in one slot
-        _v, rej, _t = _validate_shard(ctx, 0, [dict(r, body=nb)], tag="selfslot")
-        if not rej or rej[0][1] != "SpillDisjoint":
-            raise ToolError("binding self-test failed: overlapping spill slots were accepted by Trace_RegAlloc")
-        res["overlapping_slots_rejected"] = {"source": r["src"], "verdict": rej[0][1]}
+        tests.append(("slot", [dict(r, body=nb)], "Trace_RegAlloc", "SpillDisjoint"))
+    # the MOVE exemption is exercised by real traces: without it the recorded allocation of move_kept
+    # (asm-level optimizations off) must be rejected
+    mk = [r for r in recs if r["src"]["pkg"] == "move_kept" and r["src"].get("noasm") and r["src"]["profile"] == "release"]
+    if mk:
+        tests.append(("noexempt", sorted(mk, key=lambda r: r["src"]["fn"]), "Trace_RegAlloc_noexempt", "NoClobber"))
+
+    def one(t):
+        tag, rs, cfg, want = t
+        _v, rej, _t = _validate_shard(ctx, 0, rs, cfg=cfg, tag="self" + tag)
+        return tag, rej, want
+    with ThreadPoolExecutor(max_workers=3) as ex:
+        outs = list(ex.map(one, tests))
+    for tag, rej, want in outs:
+        if not rej or rej[0][1] != want:
+            raise ToolError("binding self-test '%s' failed: Trace_RegAlloc did not reject with %s (got %s)" % (
+                tag, want, [x[1] for x in rej]))
+        res[tag + "_rejected"] = describe(rej[0][0], rej[0][1], rej[0][2])
     return res
 
 
 # ------------------------------------------------------------------ driver
-def run(ctx):
-    cov, mutants = model_check(ctx)
-
-    gen_seeds = slice_for_seed(POOL, ctx.seed, 4) if ctx.quick else POOL
+def jobs_for(ctx):
+    """The deterministic pool of builds.  quick: a seed-selected slice."""
     jobs = []
+    gen_seeds = slice_for_seed(POOL, ctx.seed, 4) if ctx.quick else POOL
+    noasm_seeds = gen_seeds[:1] if ctx.quick else POOL[::6]
     for s in gen_seeds:
         p = semcheck.gen_package(s)
         for prof in PROFILES:
             jobs.append({"id": p["id"], "kind": "gen", "seed": s, "files": {"src/main.sw": p["src"]}, "profile": prof})
-    hand = hand_programs()
-    if ctx.quick:
-        hand = [h for h in hand if h["id"] != "spill_wide"]
-    for h in hand:
-        for prof in (["release"] if ctx.quick else PROFILES):
-            jobs.append(dict(h, profile=prof))
+            if s in noasm_seeds:
+                jobs.append({"id": p["id"], "kind": "gen", "seed": s, "files": {"src/main.sw": p["src"]}, "profile": prof,
+                             "noasm": True})
+    for h in hand_programs():
+        if ctx.quick:
+            if h["id"] == "spill_wide":
+                continue
+            jobs.append(dict(h, profile="release"))
+            if h["id"] in ("move_kept", "spill_loop", "spill_calls"):
+                jobs.append(dict(h, profile="release", noasm=True))
+        else:
+            for prof in PROFILES:
+                jobs.append(dict(h, profile=prof))
+                jobs.append(dict(h, profile=prof, noasm=True))
     if not ctx.quick:
         for c in corpus_programs():
             for prof in PROFILES:
                 jobs.append(dict(c, profile=prof))
+    # longest first, so that the tail of the build phase is short
+    jobs.sort(key=lambda j: -sum(len(t) for t in j["files"].values()))
+    return jobs, gen_seeds
+
+
+def run(ctx):
     ctx.build_vh("vh-exec")
+    jobs, gen_seeds = jobs_for(ctx)
+    # the design-level model check runs beside the builds (its initial-state enumeration is single-threaded)
+    bg = ThreadPoolExecutor(max_workers=1)
+    mc_future = bg.submit(model_check, ctx)
     t = time.time()
     with ThreadPoolExecutor(max_workers=BUILD_PROCS) as ex:
         builds = list(ex.map(lambda j: _build_one(ctx, j), jobs))
     log("[C08] %d builds in %.0fs" % (len(builds), time.time() - t))
     failed = [b for b in builds if not b["ok"]]
     if failed:
+        mc_future.result()
         raise ToolError("pool packages that must build did not: " + "; ".join(
             "%s/%s: %s" % (b["job"]["id"], b["job"]["profile"], b["detail"][:300]) for b in failed[:5]))
 
@@ -317,10 +349,12 @@ def run(ctx):
     for b in builds:
         j = b["job"]
         src = {"pkg": j.get("rel") or j["id"], "kind": j["kind"], "profile": j["profile"]}
-        rs = to_records(b["events"], src)
-        allrecs += rs
+        if j.get("noasm"):
+            src["noasm"] = True
+        allrecs += to_records(b["events"], src)
         if b["events"] and b["events"][-1]["ev"] == "Spill":
             leftover += 1
+        b["events"] = None
     if leftover:
         raise ToolError("%d builds ended with Spill events not followed by an allocation" % leftover)
     total_fns = len(allrecs)
@@ -339,13 +373,18 @@ def run(ctx):
     for rec, verdict, wit in rej:
         d = describe(rec, verdict, wit)
         s = rec["src"]
-        ctx.report("fn:%s:%s:%d:%s" % (s["pkg"], s["profile"], s["fn"], verdict),
-                   "register allocation of function #%d of %s (%s) violates %s: %s" % (
-                       s["fn"], s["pkg"], s["profile"], verdict, json.dumps({k: v for k, v in d.items() if k not in ("source",)})[:400]),
+        ctx.report("fn:%s:%s%s:%d:%s" % (s["pkg"], s["profile"], ":noasm" if s.get("noasm") else "", s["fn"], verdict),
+                   "register allocation of function #%d of %s (%s%s) violates %s: %s" % (
+                       s["fn"], s["pkg"], s["profile"], ", asm optimizations off" if s.get("noasm") else "", verdict,
+                       json.dumps({k: v for k, v in d.items() if k not in ("source",)})[:400]),
                    {"diagnosis": d, "names": rec["names"], "record": rec["body"]})
 
     st = self_tests(ctx, validated) if validated else {}
+    cov, mutants = mc_future.result()
+    bg.shutdown()
 
+    def moves(r):
+        return sum(1 for o in r["body"]["ops"] if o["mv"] and o["d"])
     spilled = [r for r in validated if r["rounds"] > 0]
     sample = sorted(validated, key=lambda r: (-r["nspill"], -r["nops"]))[:3] + sorted(validated, key=lambda r: r["nops"])[-2:]
     return ctx.finish("model_checking", {
@@ -355,10 +394,11 @@ def run(ctx):
         "largest_function_ops": max([r["nops"] for r in validated] or [0]),
         "functions_with_spilling": len(spilled), "spill_rounds": sum(r["rounds"] for r in spilled),
         "spill_slots": sum(r["nspill"] for r in spilled),
+        "register_to_register_moves_surviving_coalescing": sum(moves(r) for r in validated),
         "max_physical_registers_in_one_function": max([len(set(r["body"]["asg"])) for r in validated] or [0]),
         "functions_not_validated_too_large": [{"src": r["src"], "nops": r["nops"]} for r in too_big],
         "functions_not_validated_tlc_timeout": [{"src": r["src"], "nops": r["nops"]} for r in timed_out],
-        "builds": len(builds), "packages": len(jobs) // 1, "shards": nshards,
+        "builds": len(builds), "builds_with_asm_optimizations_off": sum(1 for j in jobs if j.get("noasm")), "shards": nshards,
         "generated_seeds": gen_seeds, "hand_written": sorted({j["id"] for j in jobs if j["kind"] == "hand"}),
         "corpus_programs": sorted({j["rel"] for j in jobs if j["kind"] == "corpus"}),
         "action_coverage": cov, "mutant_rules_violate": mutants, "binding_self_tests": st,
@@ -371,6 +411,8 @@ def run(ctx):
         "allocatable pool, which InPool (0..36) checks",
         "the design-level theorem is model-checked for 3 virtual / 2 physical registers and programs of <= 3 instructions "
         "(exhaustive) plus fixed-seed random longer programs; registers start equal (0) in both runs",
+        "builds with SWAY_VERIF_ASM_OPTS='' (hook H3) disable the asm-level optimizer so that register-to-register MOVEs "
+        "reach the allocator; they are additional inputs to the same allocator code",
     ])
 
 
